@@ -38,7 +38,7 @@ func (auth *Authenticator) AuthenticateCookie(rq *http.Request, response http.Re
 	}
 
 	var session LoginSession
-	_, err := auth.datastore.Get(auth.LogCtx, auth.DocIDForSession(cookie.Value), &session)
+	sessionCas, err := auth.datastore.Get(auth.LogCtx, auth.DocIDForSession(cookie.Value), &session)
 	if err != nil {
 		if base.IsDocNotFoundError(err) {
 			base.InfofCtx(auth.LogCtx, base.KeyAuth, "Session not found: %s", base.UD(cookie.Value))
@@ -61,12 +61,20 @@ func (auth *Authenticator) AuthenticateCookie(rq *http.Request, response http.Re
 	// One-time sessions must not refresh the cookie — they will be deleted on this request.
 	if sessionTimeElapsed > tenPercentOfTtl && (session.OneTime == nil || !*session.OneTime) {
 		session.Expiration = time.Now().Add(duration)
-		if err = auth.datastore.Set(auth.LogCtx, auth.DocIDForSession(session.ID), base.DurationToCbsExpiry(duration), nil, session); err != nil {
+		// Write the refreshed session back only if it is still the document that was read: an unconditional write
+		// would re-create a session that was deleted (logout) after the read above.
+		_, err = auth.datastore.WriteCas(auth.LogCtx, auth.DocIDForSession(session.ID), base.DurationToCbsExpiry(duration), sessionCas, session, 0)
+		if err == nil {
+			base.AddDbPathToCookie(rq, cookie)
+			cookie.Expires = session.Expiration
+			http.SetCookie(response, cookie)
+		} else if base.IsDocNotFoundError(err) {
+			base.InfofCtx(auth.LogCtx, base.KeyAuth, "Session not found: %s", base.UD(cookie.Value))
+			return nil, base.HTTPErrorf(http.StatusUnauthorized, "Session Invalid")
+		} else if !base.IsCasMismatch(err) {
 			return nil, err
 		}
-		base.AddDbPathToCookie(rq, cookie)
-		cookie.Expires = session.Expiration
-		http.SetCookie(response, cookie)
+		// On a CAS mismatch another request refreshed (or removed) the session concurrently: skip the refresh.
 	}
 
 	user, err := auth.GetUser(session.Username)
